@@ -75,6 +75,18 @@ def wit(x, **kw):
     return d
 
 
+LOW_PRECISIONS = (4, 11, 24, 40)
+_LOW = {}
+
+
+def low_context(prec):
+    c = _LOW.get(prec)
+    if c is None:
+        c = _LOW[prec] = mpmath.mp.clone()
+        c.prec = prec
+    return c
+
+
 def check_value(x, rec, utils, word_dtypes=()):
     """push one float through every converter; the contracts installed by install() judge each call"""
     dt = type(x)
@@ -101,6 +113,18 @@ def check_value(x, rec, utils, word_dtypes=()):
         except Exception as e:
             rec.violation("mpf-exception", wit(x, exc=f"{type(e).__name__}: {e}"[:200]))
         return
+    # ---- the float -> mpf conversion is exact by construction whatever the working precision of the context it is given
+    for lp in LOW_PRECISIONS:
+        lctx = low_context(lp)
+        try:
+            m = utils.float2mpf(lctx, x)  # judged by the float2mpf contract (exact value)
+            y = utils.mpf2float(dt, m)
+            rec.count("low-precision-context:roundtrips")
+            ok = (y == x and type(y) is dt) if (fin and x == 0) else same_bits(x, y)
+            if not ok:
+                rec.violation("mpf-roundtrip:low-precision-context", wit(x, back=y, context_precision=lp))
+        except Exception as e:
+            rec.violation("mpf-exception:low-precision-context", wit(x, context_precision=lp, exc=f"{type(e).__name__}: {e}"[:200]))
     # ---- fraction (finite only: a Fraction cannot express inf)
     if fin:
         try:
